@@ -182,6 +182,7 @@ fn build<K: Kmer + 'static>(name: &'static str, _env: &Env) -> Vec<Box<dyn Job>>
     .boxed()]
 }
 
+#[cfg(not(fuzzing))]
 pub fn jobs(env: &Env) -> Vec<Box<dyn Job>> {
     let mut out: Vec<Box<dyn Job>> = Vec::new();
     crate::kmers_all!(build, out, env);
